@@ -91,6 +91,9 @@ class PyMachine:
     def mk_rhs(self, r):
         if r["k"] == "var":
             return self.env[r["v"]]
+        if r["k"] == "ndview":
+            # the raw ndarray an Array object holds (x.values): a plain-ndarray operand that shares memory with that object
+            return self.env[r["v"]]._array
         v = r["v"]
         py = r.get("py", "arr")
         arr = np_from_json(v)
